@@ -136,8 +136,10 @@ class World(object):
         self._undef = {}
         self._sel = {}
         self._clean = {}
+        fnames = self.opts.get("filenames") or []        # run order need not be the lexicographic order of the paths
         self.rendered = [shapes.render_feature(s, i, markers=bool(self.opts.get("select")),
-                                               ptags=self.opts.get("ptags", ()))
+                                               ptags=self.opts.get("ptags", ()),
+                                               filename=fnames[i] if i < len(fnames) else None)
                          for i, s in enumerate(feature_shapes)]
         self._build(config_args)
 
@@ -322,6 +324,13 @@ class World(object):
             print("OUT<%s:%s>" % (sid, src))
             sys.stderr.write("ERR<%s:%s>\n" % (sid, src))
             logging.getLogger("harness").warning("LOG<%s:%s>", sid, src)
+            if self.opts.get("log_volume"):
+                # chatty step: many more records after the marker (the per-scenario log buffer must keep all of them)
+                nfill = self.sx.choice("log_volume", list(self.opts["log_volume"]))
+                nfill = nfill if isinstance(nfill, int) else nfill.concretize()
+                filler = logging.getLogger("harness.fill")
+                for i in range(nfill):
+                    filler.warning("fill %d", i)
         if src.endswith(".sub"):
             # nested sub-step (execute_steps): passes, or fails iff its own outcome is assert-fail
             if self.out(sid, src) == OUT_ASSERT:
